@@ -25,6 +25,8 @@ CONSTANTS Writers,   \* set of writer thread ids
           Plans,     \* set of functions Writers -> Seq({"commit","rollback","empty"}): how each
                      \* transaction of each writer ends (the environment's script)
           RPlans,    \* set of functions Readers -> Nat: number of read transactions per reader
+          RModes,    \* set of functions Readers -> {"latest", "byid"}: a "byid" reader opens its later
+                     \* transactions with reader(id = the version id its first transaction saw)
           InitVid,   \* id of the only version retained initially
           Policers,  \* set of thread ids that change the retention policy (set_max_versions)
           PPlans     \* set of functions Policers -> Seq(Nat): the max_versions values each sets
@@ -47,7 +49,7 @@ Prune(vs, rv, n) == SubSeq(vs, Drop(vs, rv, n) + 1, Len(vs))
 
 (* --algorithm WriterAdmission {
 variables
-  plan \in Plans, rplan \in RPlans, pplan \in PPlans,
+  plan \in Plans, rplan \in RPlans, rmode \in RModes, pplan \in PPlans,
   lock = 0,                 \* _version_lock: holder or 0
   writeTxn = 0,             \* _write_txn: thread owning the open write transaction or 0
   writeEvent = 0,           \* _write_event: event holding the exclusive right or 0
@@ -104,18 +106,28 @@ eEnd:     skip;                                                  \* commit()/rol
 }
 
 fair process (r \in Readers)
-  variables rk = 0, rver = [id |-> 0, content |-> <<>>];
+  variables rk = 0, rver = [id |-> 0, content |-> <<>>], first = 0;
 {
 rStart: while (rk < rplan[self]) {
           rk := rk + 1;
 rAcq:     await lock = 0; lock := self;                          \* :90
-rPick:    rver := Last(versions); readerVer[self] := Last(versions).id;  \* :119-121
+rPick:    if (rmode[self] = "byid" /\ first # 0) {               \* :91-98 reader(id=first)
+            if (\E i \in 1..Len(versions) : versions[i].id = first) {
+              rver := versions[CHOOSE i \in 1..Len(versions) : versions[i].id = first];
+              readerVer[self] := first;
+            } else {
+              rver := [id |-> 0, content |-> <<>>];               \* KeyError("version not found")
+            }
+          } else {
+            rver := Last(versions); readerVer[self] := Last(versions).id;  \* :119-121
+          };
 rRel:     lock := 0;
-rOpen:    skip;                                                  \* reader() returns
+rOpen:    if (rver.id = 0) { goto rStart }                       \* reader() returns, or raised
+          else if (first = 0) { first := rver.id };
 rRead:    skip;                                                  \* a later read in the same txn
 rcAcq:    await lock = 0; lock := self;                          \* :251
 rcEnd:    readerVer[self] := 0;                                  \* :252
-rcPrune:  versions := Prune(versions, readerVer, maxv);                \* :253
+rcPrune:  versions := Prune(versions, readerVer, maxv);          \* :253
 rcRel:    lock := 0;
 rEnd:     skip;
         }
@@ -135,19 +147,22 @@ pEnd:     skip;                                                  \* set_max_vers
 }
 } *)
 \* BEGIN TRANSLATION
-VARIABLES pc, plan, rplan, pplan, lock, writeTxn, writeEvent, waiters, evSet, 
-          nextEv, versions, published, readerVer, maxv, admitOrder, arrivals, 
-          committed, everVersions, k, myEv, enq, ver, snap, rk, rver, pk
+VARIABLES pc, plan, rplan, rmode, pplan, lock, writeTxn, writeEvent, waiters, 
+          evSet, nextEv, versions, published, readerVer, maxv, admitOrder, 
+          arrivals, committed, everVersions, k, myEv, enq, ver, snap, rk, 
+          rver, first, pk
 
-vars == << pc, plan, rplan, pplan, lock, writeTxn, writeEvent, waiters, evSet, 
-           nextEv, versions, published, readerVer, maxv, admitOrder, arrivals, 
-           committed, everVersions, k, myEv, enq, ver, snap, rk, rver, pk >>
+vars == << pc, plan, rplan, rmode, pplan, lock, writeTxn, writeEvent, waiters, 
+           evSet, nextEv, versions, published, readerVer, maxv, admitOrder, 
+           arrivals, committed, everVersions, k, myEv, enq, ver, snap, rk, 
+           rver, first, pk >>
 
 ProcSet == (Writers) \cup (Readers) \cup (Policers)
 
 Init == (* Global variables *)
         /\ plan \in Plans
         /\ rplan \in RPlans
+        /\ rmode \in RModes
         /\ pplan \in PPlans
         /\ lock = 0
         /\ writeTxn = 0
@@ -172,6 +187,7 @@ Init == (* Global variables *)
         (* Process r *)
         /\ rk = [self \in Readers |-> 0]
         /\ rver = [self \in Readers |-> [id |-> 0, content |-> <<>>]]
+        /\ first = [self \in Readers |-> 0]
         (* Process pol *)
         /\ pk = [self \in Policers |-> 0]
         /\ pc = [self \in ProcSet |-> CASE self \in Writers -> "wStart"
@@ -186,21 +202,21 @@ wStart(self) == /\ pc[self] = "wStart"
                            /\ pc' = [pc EXCEPT ![self] = "wAcq"]
                       ELSE /\ pc' = [pc EXCEPT ![self] = "Done"]
                            /\ UNCHANGED << k, myEv, enq >>
-                /\ UNCHANGED << plan, rplan, pplan, lock, writeTxn, writeEvent, 
-                                waiters, evSet, nextEv, versions, published, 
-                                readerVer, maxv, admitOrder, arrivals, 
-                                committed, everVersions, ver, snap, rk, rver, 
-                                pk >>
+                /\ UNCHANGED << plan, rplan, rmode, pplan, lock, writeTxn, 
+                                writeEvent, waiters, evSet, nextEv, versions, 
+                                published, readerVer, maxv, admitOrder, 
+                                arrivals, committed, everVersions, ver, snap, 
+                                rk, rver, first, pk >>
 
 wAcq(self) == /\ pc[self] = "wAcq"
               /\ lock = 0
               /\ lock' = self
               /\ pc' = [pc EXCEPT ![self] = "wTest"]
-              /\ UNCHANGED << plan, rplan, pplan, writeTxn, writeEvent, 
+              /\ UNCHANGED << plan, rplan, rmode, pplan, writeTxn, writeEvent, 
                               waiters, evSet, nextEv, versions, published, 
                               readerVer, maxv, admitOrder, arrivals, committed, 
                               everVersions, k, myEv, enq, ver, snap, rk, rver, 
-                              pk >>
+                              first, pk >>
 
 wTest(self) == /\ pc[self] = "wTest"
                /\ IF writeTxn = 0 /\ myEv[self] = writeEvent
@@ -215,28 +231,29 @@ wTest(self) == /\ pc[self] = "wTest"
                      ELSE /\ pc' = [pc EXCEPT ![self] = "wNewEv"]
                           /\ UNCHANGED << writeTxn, writeEvent, admitOrder, 
                                           arrivals >>
-               /\ UNCHANGED << plan, rplan, pplan, lock, waiters, evSet, 
+               /\ UNCHANGED << plan, rplan, rmode, pplan, lock, waiters, evSet, 
                                nextEv, versions, published, readerVer, maxv, 
                                committed, everVersions, k, myEv, enq, ver, 
-                               snap, rk, rver, pk >>
+                               snap, rk, rver, first, pk >>
 
 wRelA(self) == /\ pc[self] = "wRelA"
                /\ lock' = 0
                /\ pc' = [pc EXCEPT ![self] = "wSetup"]
-               /\ UNCHANGED << plan, rplan, pplan, writeTxn, writeEvent, 
+               /\ UNCHANGED << plan, rplan, rmode, pplan, writeTxn, writeEvent, 
                                waiters, evSet, nextEv, versions, published, 
                                readerVer, maxv, admitOrder, arrivals, 
                                committed, everVersions, k, myEv, enq, ver, 
-                               snap, rk, rver, pk >>
+                               snap, rk, rver, first, pk >>
 
 wNewEv(self) == /\ pc[self] = "wNewEv"
                 /\ nextEv' = nextEv + 1
                 /\ myEv' = [myEv EXCEPT ![self] = nextEv']
                 /\ pc' = [pc EXCEPT ![self] = "wEnq"]
-                /\ UNCHANGED << plan, rplan, pplan, lock, writeTxn, writeEvent, 
-                                waiters, evSet, versions, published, readerVer, 
-                                maxv, admitOrder, arrivals, committed, 
-                                everVersions, k, enq, ver, snap, rk, rver, pk >>
+                /\ UNCHANGED << plan, rplan, rmode, pplan, lock, writeTxn, 
+                                writeEvent, waiters, evSet, versions, 
+                                published, readerVer, maxv, admitOrder, 
+                                arrivals, committed, everVersions, k, enq, ver, 
+                                snap, rk, rver, first, pk >>
 
 wEnq(self) == /\ pc[self] = "wEnq"
               /\ waiters' = Append(waiters, myEv[self])
@@ -246,47 +263,48 @@ wEnq(self) == /\ pc[self] = "wEnq"
                     ELSE /\ TRUE
                          /\ UNCHANGED << arrivals, enq >>
               /\ pc' = [pc EXCEPT ![self] = "wRelW"]
-              /\ UNCHANGED << plan, rplan, pplan, lock, writeTxn, writeEvent, 
-                              evSet, nextEv, versions, published, readerVer, 
-                              maxv, admitOrder, committed, everVersions, k, 
-                              myEv, ver, snap, rk, rver, pk >>
+              /\ UNCHANGED << plan, rplan, rmode, pplan, lock, writeTxn, 
+                              writeEvent, evSet, nextEv, versions, published, 
+                              readerVer, maxv, admitOrder, committed, 
+                              everVersions, k, myEv, ver, snap, rk, rver, 
+                              first, pk >>
 
 wRelW(self) == /\ pc[self] = "wRelW"
                /\ lock' = 0
                /\ pc' = [pc EXCEPT ![self] = "wWait"]
-               /\ UNCHANGED << plan, rplan, pplan, writeTxn, writeEvent, 
+               /\ UNCHANGED << plan, rplan, rmode, pplan, writeTxn, writeEvent, 
                                waiters, evSet, nextEv, versions, published, 
                                readerVer, maxv, admitOrder, arrivals, 
                                committed, everVersions, k, myEv, enq, ver, 
-                               snap, rk, rver, pk >>
+                               snap, rk, rver, first, pk >>
 
 wWait(self) == /\ pc[self] = "wWait"
                /\ myEv[self] \in evSet
                /\ pc' = [pc EXCEPT ![self] = "wAcq"]
-               /\ UNCHANGED << plan, rplan, pplan, lock, writeTxn, writeEvent, 
-                               waiters, evSet, nextEv, versions, published, 
-                               readerVer, maxv, admitOrder, arrivals, 
-                               committed, everVersions, k, myEv, enq, ver, 
-                               snap, rk, rver, pk >>
+               /\ UNCHANGED << plan, rplan, rmode, pplan, lock, writeTxn, 
+                               writeEvent, waiters, evSet, nextEv, versions, 
+                               published, readerVer, maxv, admitOrder, 
+                               arrivals, committed, everVersions, k, myEv, enq, 
+                               ver, snap, rk, rver, first, pk >>
 
 wSetup(self) == /\ pc[self] = "wSetup"
                 /\ ver' = [ver EXCEPT ![self] = Last(versions).id + 1]
                 /\ snap' = [snap EXCEPT ![self] = published]
                 /\ pc' = [pc EXCEPT ![self] = "wRet"]
-                /\ UNCHANGED << plan, rplan, pplan, lock, writeTxn, writeEvent, 
-                                waiters, evSet, nextEv, versions, published, 
-                                readerVer, maxv, admitOrder, arrivals, 
-                                committed, everVersions, k, myEv, enq, rk, 
-                                rver, pk >>
+                /\ UNCHANGED << plan, rplan, rmode, pplan, lock, writeTxn, 
+                                writeEvent, waiters, evSet, nextEv, versions, 
+                                published, readerVer, maxv, admitOrder, 
+                                arrivals, committed, everVersions, k, myEv, 
+                                enq, rk, rver, first, pk >>
 
 wRet(self) == /\ pc[self] = "wRet"
               /\ TRUE
               /\ pc' = [pc EXCEPT ![self] = "wBody"]
-              /\ UNCHANGED << plan, rplan, pplan, lock, writeTxn, writeEvent, 
-                              waiters, evSet, nextEv, versions, published, 
-                              readerVer, maxv, admitOrder, arrivals, committed, 
-                              everVersions, k, myEv, enq, ver, snap, rk, rver, 
-                              pk >>
+              /\ UNCHANGED << plan, rplan, rmode, pplan, lock, writeTxn, 
+                              writeEvent, waiters, evSet, nextEv, versions, 
+                              published, readerVer, maxv, admitOrder, arrivals, 
+                              committed, everVersions, k, myEv, enq, ver, snap, 
+                              rk, rver, first, pk >>
 
 wBody(self) == /\ pc[self] = "wBody"
                /\ IF plan[self][k[self]] = "commit"
@@ -294,11 +312,11 @@ wBody(self) == /\ pc[self] = "wBody"
                      ELSE /\ TRUE
                           /\ snap' = snap
                /\ pc' = [pc EXCEPT ![self] = "eAcq"]
-               /\ UNCHANGED << plan, rplan, pplan, lock, writeTxn, writeEvent, 
-                               waiters, evSet, nextEv, versions, published, 
-                               readerVer, maxv, admitOrder, arrivals, 
-                               committed, everVersions, k, myEv, enq, ver, rk, 
-                               rver, pk >>
+               /\ UNCHANGED << plan, rplan, rmode, pplan, lock, writeTxn, 
+                               writeEvent, waiters, evSet, nextEv, versions, 
+                               published, readerVer, maxv, admitOrder, 
+                               arrivals, committed, everVersions, k, myEv, enq, 
+                               ver, rk, rver, first, pk >>
 
 eAcq(self) == /\ pc[self] = "eAcq"
               /\ lock = 0
@@ -306,95 +324,95 @@ eAcq(self) == /\ pc[self] = "eAcq"
               /\ IF plan[self][k[self]] = "commit"
                     THEN /\ pc' = [pc EXCEPT ![self] = "cAppend"]
                     ELSE /\ pc' = [pc EXCEPT ![self] = "xClear"]
-              /\ UNCHANGED << plan, rplan, pplan, writeTxn, writeEvent, 
+              /\ UNCHANGED << plan, rplan, rmode, pplan, writeTxn, writeEvent, 
                               waiters, evSet, nextEv, versions, published, 
                               readerVer, maxv, admitOrder, arrivals, committed, 
                               everVersions, k, myEv, enq, ver, snap, rk, rver, 
-                              pk >>
+                              first, pk >>
 
 cAppend(self) == /\ pc[self] = "cAppend"
                  /\ versions' = Append(versions, [id |-> ver[self], content |-> snap[self]])
                  /\ everVersions' = (everVersions \cup {[id |-> ver[self], content |-> snap[self]]})
                  /\ pc' = [pc EXCEPT ![self] = "cPrune"]
-                 /\ UNCHANGED << plan, rplan, pplan, lock, writeTxn, 
+                 /\ UNCHANGED << plan, rplan, rmode, pplan, lock, writeTxn, 
                                  writeEvent, waiters, evSet, nextEv, published, 
                                  readerVer, maxv, admitOrder, arrivals, 
                                  committed, k, myEv, enq, ver, snap, rk, rver, 
-                                 pk >>
+                                 first, pk >>
 
 cPrune(self) == /\ pc[self] = "cPrune"
                 /\ versions' = Prune(versions, readerVer, maxv)
                 /\ pc' = [pc EXCEPT ![self] = "cPublish"]
-                /\ UNCHANGED << plan, rplan, pplan, lock, writeTxn, writeEvent, 
-                                waiters, evSet, nextEv, published, readerVer, 
-                                maxv, admitOrder, arrivals, committed, 
-                                everVersions, k, myEv, enq, ver, snap, rk, 
-                                rver, pk >>
+                /\ UNCHANGED << plan, rplan, rmode, pplan, lock, writeTxn, 
+                                writeEvent, waiters, evSet, nextEv, published, 
+                                readerVer, maxv, admitOrder, arrivals, 
+                                committed, everVersions, k, myEv, enq, ver, 
+                                snap, rk, rver, first, pk >>
 
 cPublish(self) == /\ pc[self] = "cPublish"
                   /\ published' = snap[self]
                   /\ committed' = (committed \cup {Tag(self, k[self])})
                   /\ pc' = [pc EXCEPT ![self] = "xClear"]
-                  /\ UNCHANGED << plan, rplan, pplan, lock, writeTxn, 
+                  /\ UNCHANGED << plan, rplan, rmode, pplan, lock, writeTxn, 
                                   writeEvent, waiters, evSet, nextEv, versions, 
                                   readerVer, maxv, admitOrder, arrivals, 
                                   everVersions, k, myEv, enq, ver, snap, rk, 
-                                  rver, pk >>
+                                  rver, first, pk >>
 
 xClear(self) == /\ pc[self] = "xClear"
                 /\ writeTxn' = 0
                 /\ pc' = [pc EXCEPT ![self] = "xTest"]
-                /\ UNCHANGED << plan, rplan, pplan, lock, writeEvent, waiters, 
-                                evSet, nextEv, versions, published, readerVer, 
-                                maxv, admitOrder, arrivals, committed, 
-                                everVersions, k, myEv, enq, ver, snap, rk, 
-                                rver, pk >>
+                /\ UNCHANGED << plan, rplan, rmode, pplan, lock, writeEvent, 
+                                waiters, evSet, nextEv, versions, published, 
+                                readerVer, maxv, admitOrder, arrivals, 
+                                committed, everVersions, k, myEv, enq, ver, 
+                                snap, rk, rver, first, pk >>
 
 xTest(self) == /\ pc[self] = "xTest"
                /\ IF waiters # <<>>
                      THEN /\ pc' = [pc EXCEPT ![self] = "xPop"]
                      ELSE /\ pc' = [pc EXCEPT ![self] = "eRel"]
-               /\ UNCHANGED << plan, rplan, pplan, lock, writeTxn, writeEvent, 
-                               waiters, evSet, nextEv, versions, published, 
-                               readerVer, maxv, admitOrder, arrivals, 
-                               committed, everVersions, k, myEv, enq, ver, 
-                               snap, rk, rver, pk >>
+               /\ UNCHANGED << plan, rplan, rmode, pplan, lock, writeTxn, 
+                               writeEvent, waiters, evSet, nextEv, versions, 
+                               published, readerVer, maxv, admitOrder, 
+                               arrivals, committed, everVersions, k, myEv, enq, 
+                               ver, snap, rk, rver, first, pk >>
 
 xPop(self) == /\ pc[self] = "xPop"
               /\ writeEvent' = Head(waiters)
               /\ waiters' = Tail(waiters)
               /\ pc' = [pc EXCEPT ![self] = "xSet"]
-              /\ UNCHANGED << plan, rplan, pplan, lock, writeTxn, evSet, 
+              /\ UNCHANGED << plan, rplan, rmode, pplan, lock, writeTxn, evSet, 
                               nextEv, versions, published, readerVer, maxv, 
                               admitOrder, arrivals, committed, everVersions, k, 
-                              myEv, enq, ver, snap, rk, rver, pk >>
+                              myEv, enq, ver, snap, rk, rver, first, pk >>
 
 xSet(self) == /\ pc[self] = "xSet"
               /\ evSet' = (evSet \cup {writeEvent})
               /\ pc' = [pc EXCEPT ![self] = "eRel"]
-              /\ UNCHANGED << plan, rplan, pplan, lock, writeTxn, writeEvent, 
-                              waiters, nextEv, versions, published, readerVer, 
-                              maxv, admitOrder, arrivals, committed, 
+              /\ UNCHANGED << plan, rplan, rmode, pplan, lock, writeTxn, 
+                              writeEvent, waiters, nextEv, versions, published, 
+                              readerVer, maxv, admitOrder, arrivals, committed, 
                               everVersions, k, myEv, enq, ver, snap, rk, rver, 
-                              pk >>
+                              first, pk >>
 
 eRel(self) == /\ pc[self] = "eRel"
               /\ lock' = 0
               /\ pc' = [pc EXCEPT ![self] = "eEnd"]
-              /\ UNCHANGED << plan, rplan, pplan, writeTxn, writeEvent, 
+              /\ UNCHANGED << plan, rplan, rmode, pplan, writeTxn, writeEvent, 
                               waiters, evSet, nextEv, versions, published, 
                               readerVer, maxv, admitOrder, arrivals, committed, 
                               everVersions, k, myEv, enq, ver, snap, rk, rver, 
-                              pk >>
+                              first, pk >>
 
 eEnd(self) == /\ pc[self] = "eEnd"
               /\ TRUE
               /\ pc' = [pc EXCEPT ![self] = "wStart"]
-              /\ UNCHANGED << plan, rplan, pplan, lock, writeTxn, writeEvent, 
-                              waiters, evSet, nextEv, versions, published, 
-                              readerVer, maxv, admitOrder, arrivals, committed, 
-                              everVersions, k, myEv, enq, ver, snap, rk, rver, 
-                              pk >>
+              /\ UNCHANGED << plan, rplan, rmode, pplan, lock, writeTxn, 
+                              writeEvent, waiters, evSet, nextEv, versions, 
+                              published, readerVer, maxv, admitOrder, arrivals, 
+                              committed, everVersions, k, myEv, enq, ver, snap, 
+                              rk, rver, first, pk >>
 
 w(self) == wStart(self) \/ wAcq(self) \/ wTest(self) \/ wRelA(self)
               \/ wNewEv(self) \/ wEnq(self) \/ wRelW(self) \/ wWait(self)
@@ -409,103 +427,116 @@ rStart(self) == /\ pc[self] = "rStart"
                            /\ pc' = [pc EXCEPT ![self] = "rAcq"]
                       ELSE /\ pc' = [pc EXCEPT ![self] = "Done"]
                            /\ rk' = rk
-                /\ UNCHANGED << plan, rplan, pplan, lock, writeTxn, writeEvent, 
-                                waiters, evSet, nextEv, versions, published, 
-                                readerVer, maxv, admitOrder, arrivals, 
-                                committed, everVersions, k, myEv, enq, ver, 
-                                snap, rver, pk >>
+                /\ UNCHANGED << plan, rplan, rmode, pplan, lock, writeTxn, 
+                                writeEvent, waiters, evSet, nextEv, versions, 
+                                published, readerVer, maxv, admitOrder, 
+                                arrivals, committed, everVersions, k, myEv, 
+                                enq, ver, snap, rver, first, pk >>
 
 rAcq(self) == /\ pc[self] = "rAcq"
               /\ lock = 0
               /\ lock' = self
               /\ pc' = [pc EXCEPT ![self] = "rPick"]
-              /\ UNCHANGED << plan, rplan, pplan, writeTxn, writeEvent, 
+              /\ UNCHANGED << plan, rplan, rmode, pplan, writeTxn, writeEvent, 
                               waiters, evSet, nextEv, versions, published, 
                               readerVer, maxv, admitOrder, arrivals, committed, 
                               everVersions, k, myEv, enq, ver, snap, rk, rver, 
-                              pk >>
+                              first, pk >>
 
 rPick(self) == /\ pc[self] = "rPick"
-               /\ rver' = [rver EXCEPT ![self] = Last(versions)]
-               /\ readerVer' = [readerVer EXCEPT ![self] = Last(versions).id]
+               /\ IF rmode[self] = "byid" /\ first[self] # 0
+                     THEN /\ IF \E i \in 1..Len(versions) : versions[i].id = first[self]
+                                THEN /\ rver' = [rver EXCEPT ![self] = versions[CHOOSE i \in 1..Len(versions) : versions[i].id = first[self]]]
+                                     /\ readerVer' = [readerVer EXCEPT ![self] = first[self]]
+                                ELSE /\ rver' = [rver EXCEPT ![self] = [id |-> 0, content |-> <<>>]]
+                                     /\ UNCHANGED readerVer
+                     ELSE /\ rver' = [rver EXCEPT ![self] = Last(versions)]
+                          /\ readerVer' = [readerVer EXCEPT ![self] = Last(versions).id]
                /\ pc' = [pc EXCEPT ![self] = "rRel"]
-               /\ UNCHANGED << plan, rplan, pplan, lock, writeTxn, writeEvent, 
-                               waiters, evSet, nextEv, versions, published, 
-                               maxv, admitOrder, arrivals, committed, 
-                               everVersions, k, myEv, enq, ver, snap, rk, pk >>
+               /\ UNCHANGED << plan, rplan, rmode, pplan, lock, writeTxn, 
+                               writeEvent, waiters, evSet, nextEv, versions, 
+                               published, maxv, admitOrder, arrivals, 
+                               committed, everVersions, k, myEv, enq, ver, 
+                               snap, rk, first, pk >>
 
 rRel(self) == /\ pc[self] = "rRel"
               /\ lock' = 0
               /\ pc' = [pc EXCEPT ![self] = "rOpen"]
-              /\ UNCHANGED << plan, rplan, pplan, writeTxn, writeEvent, 
+              /\ UNCHANGED << plan, rplan, rmode, pplan, writeTxn, writeEvent, 
                               waiters, evSet, nextEv, versions, published, 
                               readerVer, maxv, admitOrder, arrivals, committed, 
                               everVersions, k, myEv, enq, ver, snap, rk, rver, 
-                              pk >>
+                              first, pk >>
 
 rOpen(self) == /\ pc[self] = "rOpen"
-               /\ TRUE
-               /\ pc' = [pc EXCEPT ![self] = "rRead"]
-               /\ UNCHANGED << plan, rplan, pplan, lock, writeTxn, writeEvent, 
-                               waiters, evSet, nextEv, versions, published, 
-                               readerVer, maxv, admitOrder, arrivals, 
-                               committed, everVersions, k, myEv, enq, ver, 
-                               snap, rk, rver, pk >>
+               /\ IF rver[self].id = 0
+                     THEN /\ pc' = [pc EXCEPT ![self] = "rStart"]
+                          /\ first' = first
+                     ELSE /\ IF first[self] = 0
+                                THEN /\ first' = [first EXCEPT ![self] = rver[self].id]
+                                ELSE /\ TRUE
+                                     /\ first' = first
+                          /\ pc' = [pc EXCEPT ![self] = "rRead"]
+               /\ UNCHANGED << plan, rplan, rmode, pplan, lock, writeTxn, 
+                               writeEvent, waiters, evSet, nextEv, versions, 
+                               published, readerVer, maxv, admitOrder, 
+                               arrivals, committed, everVersions, k, myEv, enq, 
+                               ver, snap, rk, rver, pk >>
 
 rRead(self) == /\ pc[self] = "rRead"
                /\ TRUE
                /\ pc' = [pc EXCEPT ![self] = "rcAcq"]
-               /\ UNCHANGED << plan, rplan, pplan, lock, writeTxn, writeEvent, 
-                               waiters, evSet, nextEv, versions, published, 
-                               readerVer, maxv, admitOrder, arrivals, 
-                               committed, everVersions, k, myEv, enq, ver, 
-                               snap, rk, rver, pk >>
+               /\ UNCHANGED << plan, rplan, rmode, pplan, lock, writeTxn, 
+                               writeEvent, waiters, evSet, nextEv, versions, 
+                               published, readerVer, maxv, admitOrder, 
+                               arrivals, committed, everVersions, k, myEv, enq, 
+                               ver, snap, rk, rver, first, pk >>
 
 rcAcq(self) == /\ pc[self] = "rcAcq"
                /\ lock = 0
                /\ lock' = self
                /\ pc' = [pc EXCEPT ![self] = "rcEnd"]
-               /\ UNCHANGED << plan, rplan, pplan, writeTxn, writeEvent, 
+               /\ UNCHANGED << plan, rplan, rmode, pplan, writeTxn, writeEvent, 
                                waiters, evSet, nextEv, versions, published, 
                                readerVer, maxv, admitOrder, arrivals, 
                                committed, everVersions, k, myEv, enq, ver, 
-                               snap, rk, rver, pk >>
+                               snap, rk, rver, first, pk >>
 
 rcEnd(self) == /\ pc[self] = "rcEnd"
                /\ readerVer' = [readerVer EXCEPT ![self] = 0]
                /\ pc' = [pc EXCEPT ![self] = "rcPrune"]
-               /\ UNCHANGED << plan, rplan, pplan, lock, writeTxn, writeEvent, 
-                               waiters, evSet, nextEv, versions, published, 
-                               maxv, admitOrder, arrivals, committed, 
-                               everVersions, k, myEv, enq, ver, snap, rk, rver, 
-                               pk >>
+               /\ UNCHANGED << plan, rplan, rmode, pplan, lock, writeTxn, 
+                               writeEvent, waiters, evSet, nextEv, versions, 
+                               published, maxv, admitOrder, arrivals, 
+                               committed, everVersions, k, myEv, enq, ver, 
+                               snap, rk, rver, first, pk >>
 
 rcPrune(self) == /\ pc[self] = "rcPrune"
                  /\ versions' = Prune(versions, readerVer, maxv)
                  /\ pc' = [pc EXCEPT ![self] = "rcRel"]
-                 /\ UNCHANGED << plan, rplan, pplan, lock, writeTxn, 
+                 /\ UNCHANGED << plan, rplan, rmode, pplan, lock, writeTxn, 
                                  writeEvent, waiters, evSet, nextEv, published, 
                                  readerVer, maxv, admitOrder, arrivals, 
                                  committed, everVersions, k, myEv, enq, ver, 
-                                 snap, rk, rver, pk >>
+                                 snap, rk, rver, first, pk >>
 
 rcRel(self) == /\ pc[self] = "rcRel"
                /\ lock' = 0
                /\ pc' = [pc EXCEPT ![self] = "rEnd"]
-               /\ UNCHANGED << plan, rplan, pplan, writeTxn, writeEvent, 
+               /\ UNCHANGED << plan, rplan, rmode, pplan, writeTxn, writeEvent, 
                                waiters, evSet, nextEv, versions, published, 
                                readerVer, maxv, admitOrder, arrivals, 
                                committed, everVersions, k, myEv, enq, ver, 
-                               snap, rk, rver, pk >>
+                               snap, rk, rver, first, pk >>
 
 rEnd(self) == /\ pc[self] = "rEnd"
               /\ TRUE
               /\ pc' = [pc EXCEPT ![self] = "rStart"]
-              /\ UNCHANGED << plan, rplan, pplan, lock, writeTxn, writeEvent, 
-                              waiters, evSet, nextEv, versions, published, 
-                              readerVer, maxv, admitOrder, arrivals, committed, 
-                              everVersions, k, myEv, enq, ver, snap, rk, rver, 
-                              pk >>
+              /\ UNCHANGED << plan, rplan, rmode, pplan, lock, writeTxn, 
+                              writeEvent, waiters, evSet, nextEv, versions, 
+                              published, readerVer, maxv, admitOrder, arrivals, 
+                              committed, everVersions, k, myEv, enq, ver, snap, 
+                              rk, rver, first, pk >>
 
 r(self) == rStart(self) \/ rAcq(self) \/ rPick(self) \/ rRel(self)
               \/ rOpen(self) \/ rRead(self) \/ rcAcq(self) \/ rcEnd(self)
@@ -517,57 +548,57 @@ pStart(self) == /\ pc[self] = "pStart"
                            /\ pc' = [pc EXCEPT ![self] = "pAcq"]
                       ELSE /\ pc' = [pc EXCEPT ![self] = "Done"]
                            /\ pk' = pk
-                /\ UNCHANGED << plan, rplan, pplan, lock, writeTxn, writeEvent, 
-                                waiters, evSet, nextEv, versions, published, 
-                                readerVer, maxv, admitOrder, arrivals, 
-                                committed, everVersions, k, myEv, enq, ver, 
-                                snap, rk, rver >>
+                /\ UNCHANGED << plan, rplan, rmode, pplan, lock, writeTxn, 
+                                writeEvent, waiters, evSet, nextEv, versions, 
+                                published, readerVer, maxv, admitOrder, 
+                                arrivals, committed, everVersions, k, myEv, 
+                                enq, ver, snap, rk, rver, first >>
 
 pAcq(self) == /\ pc[self] = "pAcq"
               /\ lock = 0
               /\ lock' = self
               /\ pc' = [pc EXCEPT ![self] = "pSet"]
-              /\ UNCHANGED << plan, rplan, pplan, writeTxn, writeEvent, 
+              /\ UNCHANGED << plan, rplan, rmode, pplan, writeTxn, writeEvent, 
                               waiters, evSet, nextEv, versions, published, 
                               readerVer, maxv, admitOrder, arrivals, committed, 
                               everVersions, k, myEv, enq, ver, snap, rk, rver, 
-                              pk >>
+                              first, pk >>
 
 pSet(self) == /\ pc[self] = "pSet"
               /\ maxv' = pplan[self][pk[self]]
               /\ pc' = [pc EXCEPT ![self] = "pPrune"]
-              /\ UNCHANGED << plan, rplan, pplan, lock, writeTxn, writeEvent, 
-                              waiters, evSet, nextEv, versions, published, 
-                              readerVer, admitOrder, arrivals, committed, 
-                              everVersions, k, myEv, enq, ver, snap, rk, rver, 
-                              pk >>
+              /\ UNCHANGED << plan, rplan, rmode, pplan, lock, writeTxn, 
+                              writeEvent, waiters, evSet, nextEv, versions, 
+                              published, readerVer, admitOrder, arrivals, 
+                              committed, everVersions, k, myEv, enq, ver, snap, 
+                              rk, rver, first, pk >>
 
 pPrune(self) == /\ pc[self] = "pPrune"
                 /\ versions' = Prune(versions, readerVer, maxv)
                 /\ pc' = [pc EXCEPT ![self] = "pRel"]
-                /\ UNCHANGED << plan, rplan, pplan, lock, writeTxn, writeEvent, 
-                                waiters, evSet, nextEv, published, readerVer, 
-                                maxv, admitOrder, arrivals, committed, 
-                                everVersions, k, myEv, enq, ver, snap, rk, 
-                                rver, pk >>
+                /\ UNCHANGED << plan, rplan, rmode, pplan, lock, writeTxn, 
+                                writeEvent, waiters, evSet, nextEv, published, 
+                                readerVer, maxv, admitOrder, arrivals, 
+                                committed, everVersions, k, myEv, enq, ver, 
+                                snap, rk, rver, first, pk >>
 
 pRel(self) == /\ pc[self] = "pRel"
               /\ lock' = 0
               /\ pc' = [pc EXCEPT ![self] = "pEnd"]
-              /\ UNCHANGED << plan, rplan, pplan, writeTxn, writeEvent, 
+              /\ UNCHANGED << plan, rplan, rmode, pplan, writeTxn, writeEvent, 
                               waiters, evSet, nextEv, versions, published, 
                               readerVer, maxv, admitOrder, arrivals, committed, 
                               everVersions, k, myEv, enq, ver, snap, rk, rver, 
-                              pk >>
+                              first, pk >>
 
 pEnd(self) == /\ pc[self] = "pEnd"
               /\ TRUE
               /\ pc' = [pc EXCEPT ![self] = "pStart"]
-              /\ UNCHANGED << plan, rplan, pplan, lock, writeTxn, writeEvent, 
-                              waiters, evSet, nextEv, versions, published, 
-                              readerVer, maxv, admitOrder, arrivals, committed, 
-                              everVersions, k, myEv, enq, ver, snap, rk, rver, 
-                              pk >>
+              /\ UNCHANGED << plan, rplan, rmode, pplan, lock, writeTxn, 
+                              writeEvent, waiters, evSet, nextEv, versions, 
+                              published, readerVer, maxv, admitOrder, arrivals, 
+                              committed, everVersions, k, myEv, enq, ver, snap, 
+                              rk, rver, first, pk >>
 
 pol(self) == pStart(self) \/ pAcq(self) \/ pSet(self) \/ pPrune(self)
                 \/ pRel(self) \/ pEnd(self)
@@ -667,10 +698,13 @@ VersionsArePrefixes == \A v \in everVersions : IsPrefix(v.content, Serial(Append
 
 \* readers hold a committed version, and it stays retained while they hold it
 ReadersSeeCommitted ==
-    \A t \in Readers : pc[t] \in {"rRel", "rOpen", "rRead", "rcAcq", "rcEnd"} =>
+    \A t \in Readers : (pc[t] \in {"rRel", "rOpen", "rRead", "rcAcq", "rcEnd"} /\ rver[t].id # 0) =>
         /\ rver[t] \in everVersions
         /\ readerVer[t] = rver[t].id
         /\ \E i \in 1..Len(versions) : versions[i] = rver[t]
+\* every version pinned by an open reader is retained - at every instant, also in the middle
+\* of critical sections (a reader opened by id on a version that is being pruned would break it)
+PinnedRetained == \A t \in Readers : readerVer[t] # 0 => \E i \in 1..Len(versions) : versions[i].id = readerVer[t]
 \* the published map is always a committed content (a direct lock-free read never sees a
 \* partial transaction)
 PublishedIsCommitted == \E v \in everVersions : v.content = published
